@@ -3,7 +3,7 @@ from .. import gen, history, model
 from .c05 import env_of
 
 PLAN = {
-    "quick": {"shards": 8, "cases": 260, "min_nontrivial": 800, "budget_s": 240},
+    "quick": {"shards": 8, "cases": 700, "min_nontrivial": 2500, "budget_s": 300},
     "thorough": {"shards": 16, "cases": 4500, "min_nontrivial": 25000, "budget_s": 1500},
 }
 RULE = ("a case is a random schema (all field families, nested schemas, config types, lists of schemas/config types, "
@@ -16,7 +16,7 @@ RULE = ("a case is a random schema (all field families, nested schemas, config t
         "the whole state is compared with the prediction 'only this path changed, to the model's normal form'; "
         "non-trivial = >= 1 accepted and >= 1 rejected operation over >= 2 routes; distinct = distinct (schema, history)")
 REQUIRED = ("inv_walks", "inv_values_judged", "readback_checks", "accepted_ops", "rejected_ops", "route:set", "route:set-sub",
-            "route:ctor", "route:load_tree", "route:loads", "route:cmdline", "route:reset", "route:listop", "route:dictop")
+            "route:ctor", "route:load_tree", "route:loads", "route:cmdline", "route:reset", "route:listop", "route:dictop", "route:serialize")
 ASSUMPTIONS = ["the reference model (vf/model.py) states the declared constraints; values whose status the documentation "
                "leaves open are not judged", "declared defaults are generated in normal form (the property is "
                "conditional on valid defaults)", "FilenameField(exists=...) is judged against a fixture tree no "
